@@ -133,7 +133,7 @@ impl StressRunner {
         let cache: Cache<u64, u64, VBuild> = {
             let mut b = Cache::builder();
             if let Some(c) = self.cfg.cap {
-                b = b.max_capacity(c.max(keys * 4));
+                b = b.max_capacity(c.max(keys * 8));
             }
             b.build_with_hasher(VBuild(self.cfg.hasher))
         };
@@ -170,7 +170,9 @@ impl StressRunner {
                 let mut rng = Lcg(seed.wrapping_add(900 + c * 31));
                 let mut n = 0u64;
                 while !stop.load(Ordering::SeqCst) {
-                    let k = keys + rng.next() % keys;
+                    let x = rng.next() % keys;
+                    // half of the outside keys differ from a resident key only in the upper hash bits
+                    let k = if rng.next() % 2 == 0 { keys + x } else { ((x + 1) << 32) | x };
                     n += 1;
                     if rng.next() % 3 == 0 {
                         cache.invalidate(&k);
@@ -189,6 +191,7 @@ impl StressRunner {
             let it = cache.iter();
             for k in 0..keys {
                 cache.insert(2 * keys + k, 7);
+                cache.insert(((k + 1) << 40) | k, 7);
             }
             let mut seen = vec![0u32; keys as usize];
             for e in it {
@@ -202,6 +205,7 @@ impl StressRunner {
             }
             for k in 0..keys {
                 cache.invalidate(&(2 * keys + k));
+                cache.invalidate(&(((k + 1) << 40) | k));
             }
             cache.sync();
         }
@@ -218,7 +222,7 @@ impl StressRunner {
                     let mut seen = vec![0u32; keys as usize];
                     for (k, v) in &got {
                         if *k >= keys {
-                            if churn > 0 && *k < 3 * keys {
+                            if churn > 0 {
                                 continue;
                             }
                             *problem.lock().unwrap() = Some(format!("iteration yielded unknown key {}", k));
